@@ -141,6 +141,12 @@ def run(out, tier, seed):
         cases = keep + rng.sample(rest, cap - len(keep))
         for i, c in enumerate(cases):
             c["id"] = i
+    # refused activations on the same function in between (random histories on functions that bind a variable of their own)
+    for c in cases:
+        if c["src"] == "random" and c["place"] not in ("way", "lid_open") and rng.random() < 0.4:
+            for pos in sorted(rng.sample(range(len(c["ops"]) + 1), min(len(c["ops"]) + 1, rng.randint(1, 2))), reverse=True):
+                c["ops"].insert(pos, ["badact"])
+                c["ops"].insert(pos + 1, ["resolve"])
     # a fifth of the random histories run on a function that was tooled in place beforehand
     for c in cases:
         if c["src"] == "random" and rng.random() < 0.2:
